@@ -162,7 +162,7 @@ def r18_3(run, model):
                     ok = a0["value"].startswith("_")
                     run.ob("R18.3", f"{f.name}|binder {a0['value']}", ok, site(DER, c["sp"]), f"synthesised binder pattern `{a0['value']}`",
                            witness="a user field or variable of the same name is captured by the generated match")
-    run.floor("synthesised binder name patterns", n, 2)
+    run.floor("synthesised binder name patterns", n, 1)
 
 
 def reach(model, roots):
@@ -441,6 +441,32 @@ def r18_14(run, model):
                    "`Method to_string not found`")
 
 
+def r18_16(run, model):
+    run.rule("R18.16", "a struct without fields renders as `Name {}`: the pieces build_struct_body writes around the fields carry the spaces of "
+                       "`Name { f: v }` (`\"{} {{ \"` before, `\" }\"` after), so the field-less struct has a rendering of its own - a test of "
+                       "`fields.is_empty()` that returns the text without the inner spaces")
+    f = model.fn("build_struct_body", DER)
+    texts = [x["value"] for x in S.walk(f.body) if x["k"] == "Lit" and x.get("lit") == "Str" and isinstance(x.get("value"), str)]
+    src = S.norm_ws(run.facts.text(DER, f.body["sp"]))
+    texts += re.findall(r'format!\("((?:[^"\\]|\\.)*)"', run.facts.text(DER, f.body["sp"]))
+    opens = [t for t in texts if re.search(r"\{\{? $", t)]
+    closes = [t for t in texts if re.match(r"^ \}", t)]
+    if not opens or not closes:
+        run.ob("R18.16", "build_struct_body|a field-less struct has no stray spaces", True, site(DER, f.node["sp"]),
+               "the general path writes no space between the braces and the fields")
+        return
+    guard = None
+    for iff in S.find(f.body, "If"):
+        c = S.norm_ws(run.facts.text(DER, iff["cond"]["sp"]))
+        if re.search(r"fields\.is_empty\(\)|fields\.len\(\)==0", c) and any(x["k"] == "Return" for x in S.walk(iff["then"])):
+            body = run.facts.text(DER, iff["then"]["sp"])
+            if re.search(r'"\{\} \{\{\}\}"|\{\{\}\}', body):
+                guard = iff
+    run.ob("R18.16", "build_struct_body|a field-less struct has no stray spaces", guard is not None, site(DER, (guard or f.node)["sp"]),
+           f"general path: `{opens[0]}` .. `{closes[0]}`; special case for no fields: {'present' if guard else 'absent'}",
+           witness="#[derive(ToString)] struct Empty {}: to_string renders `Empty {  }` instead of `Empty {}`, also when nested")
+
+
 def r18_15(run, model):
     run.rule("R18.15", "a generated body reads its receiver once: in derive.rs every use of the parameter `self` as a value stands outside the "
                        "iterations over the fields or variants of the definition (the fields are taken apart by one pattern, the variants by "
@@ -489,6 +515,7 @@ def run(run, model):
     run.try_rule(r18_13, model)
     run.try_rule(r18_14, model)
     run.try_rule(r18_15, model)
+    run.try_rule(r18_16, model)
     # the leaves of both renderings go through the runtime's *_to_string helpers (shared with C10 R10.4)
     from rules import c10 as _c10
     run.try_rule(_c10.r10_4, model)
